@@ -66,6 +66,7 @@
   straddling pairs (for which the library's answer legitimately depends on which of raw/rounded is tested).
 -/
 import SSJ.Proofs.EntryLaws
+import SSJ.Proofs.BodyOK
 import SSJ.Props.C01
 import SSJ.Props.C02
 import SSJ.Props.C03
@@ -134,7 +135,7 @@ theorem setsim_iff (hm : SetMeasure m) (hv : validateJoin m.name a t = .ok (l, r
     exact (hsound row hrow hk).1
   · intro hq
     obtain ⟨fr', hres', row, hrow, hk, -⟩ := C01.setsim_complete m hm a t toks cpu l r hv thr hthr hok hs ls hls rs hrs
-      hpl hpr hne (by rw [hns]; exact hq)
+      hpl hpr hne (by rw [hns]; exact hq) (setSimJoinPy_bodyOK m a t toks cpu l r hv fr hres)
     rw [hres] at hres'
     cases Except.ok.inj hres'
     exact ⟨row, hrow, hk⟩
@@ -285,6 +286,7 @@ theorem overlap_iff (f : OverlapFilterObj)
     (a.outSimScore = true → ScoreOf fr (keyOf l a.lKey ls) (keyOf r a.rKey rs)
       (.int (interCount (tokensOf (toks true) l a.lAttr ls) (tokensOf (toks true) r a.rAttr rs)))) := by
   obtain ⟨fr', hres', -, h⟩ := C01.overlap_exact a t toks cpu f l r hf hv hk hnd hlen
+    (overlapJoinPy_bodyOK a t toks cpu l r hv fr hres)
   rw [hres] at hres'
   cases Except.ok.inj hres'
   exact h ls hls rs hrs hpl hpr
@@ -385,6 +387,7 @@ theorem ovc_iff (hv : validateJoin "OVERLAP_COEFFICIENT" a t = .ok (l, r))
       (if Spec.bothEmpty (tokensOf (toks true) l a.lAttr ls) (tokensOf (toks true) r a.rAttr rs) then .flt 1
        else scoreCell (Spec.ovcScore (tokensOf (toks true) l a.lAttr ls) (tokensOf (toks true) r a.rAttr rs)))) := by
   obtain ⟨fr', hres', -, h⟩ := C01.ovc_exact a t toks cpu l r hv hnd hlen
+    (overlapCoefficientJoinPy_bodyOK a t toks cpu l r hv fr hres)
   rw [hres] at hres'
   cases Except.ok.inj hres'
   exact h ls hls rs hrs hpl hpr
@@ -646,11 +649,13 @@ example :
     (∃ fr, (setSimJoinPy .jaccard (exArgs.withOp "=") {} exToks 4).result = .ok fr) ∧
     (∃ fr, (setSimJoinPy .jaccard (exArgs.withThreshold (.float (3 / 5))) {} exToks 4).result = .ok fr) ∧
     (∃ fr, (setSimJoinPy .jaccard exArgs.swap {} exToks 4).result = .ok fr) :=
-  ⟨C01.setsim_returns _ _ _ _ _ exL exR (validateJoin_withOp _ exArgs {} exL exR ">" exValid (by decide)),
-   C01.setsim_returns _ _ _ _ _ exL exR (validateJoin_withOp _ exArgs {} exL exR "=" exValid (by decide)),
+  ⟨C01.setsim_returns _ _ _ _ _ exL exR (validateJoin_withOp _ exArgs {} exL exR ">" exValid (by decide))
+     (by decide +kernel),
+   C01.setsim_returns _ _ _ _ _ exL exR (validateJoin_withOp _ exArgs {} exL exR "=" exValid (by decide))
+     (by decide +kernel),
    C01.setsim_returns _ _ _ _ _ exL exR (validateJoin_withThreshold _ exArgs {} exL exR _ exValid
-     (unitThr_valid _ (Or.inl rfl) _ (by norm_num) (by norm_num))),
-   C01.setsim_returns _ _ _ _ _ exR exL (validateJoin_swap _ exArgs {} exL exR exValid)⟩
+     (unitThr_valid _ (Or.inl rfl) _ (by norm_num) (by norm_num))) (by decide +kernel),
+   C01.setsim_returns _ _ _ _ _ exR exL (validateJoin_swap _ exArgs {} exL exR exValid) (by decide +kernel)⟩
 
 /-- … and the laws speak about something: the pair (1, 7) IS in the result of the fixture's call, hence (by
     transposition) the pair (7, 1) is in the result of the swapped call -/
@@ -738,20 +743,23 @@ example :
   refine ⟨?_, ?_, ?_, ?_, ?_, ?_⟩
   · obtain ⟨fr, h, -⟩ := C01.overlap_exact (A.withOp ">") {} tk 1 _ L R
       (mkOverlapFilter_withOp _ ">=" ">" _ _ F rfl (by decide)) (by decide) (by decide) tk_nodup (by decide)
+      (by decide +kernel)
     exact ⟨fr, h⟩
   · obtain ⟨fr, h, -⟩ := C01.overlap_exact (A.withThreshold (.int 2)) {} tk 1 _ L R
       (mkOverlapFilter_withInt 1 2 (by decide) _ _ _ F rfl) (by decide) (by decide) tk_nodup (by decide)
+      (by decide +kernel)
     exact ⟨fr, h⟩
   · obtain ⟨fr, h, -⟩ := C01.overlap_exact A.swap {} tk 1 F R L rfl (validateTablesAttrs_swap A L R (by decide))
-      (validateOutAndKeys_swap A L R (by decide)) tk_nodup (by decide)
+      (validateOutAndKeys_swap A L R (by decide)) tk_nodup (by decide) (by decide +kernel)
     exact ⟨fr, h⟩
   · obtain ⟨fr, h, -⟩ := C01.ovc_exact (A.withOp "=") {} tk 1 L R
-      (validateJoin_withOp _ A {} L R "=" (by decide) (by decide)) tk_nodup (by decide)
+      (validateJoin_withOp _ A {} L R "=" (by decide) (by decide)) tk_nodup (by decide) (by decide +kernel)
     exact ⟨fr, h⟩
   · obtain ⟨fr, h, -⟩ := C01.ovc_exact (A.withThreshold (.float (1 / 2))) {} tk 1 L R exOvcValid tk_nodup (by decide)
+      (by decide +kernel)
     exact ⟨fr, h⟩
   · obtain ⟨fr, h, -⟩ := C01.ovc_exact A.swap {} tk 1 R L (validateJoin_swap _ A {} L R (by decide)) tk_nodup
-      (by decide)
+      (by decide) (by decide +kernel)
     exact ⟨fr, h⟩
 end ExExact
 
@@ -798,10 +806,11 @@ example :
     (∃ fr, (editDistanceJoinPy (C03.exA.withThreshold (.int 0)) C03.exT C03.exToks 4).result = .ok fr) ∧
     (∃ fr, (editDistanceJoinPy C03.exA.swap C03.exT C03.exToks 4).result = .ok fr) :=
   ⟨C03.returns_frame _ _ _ _ C03.exL C03.exR 1
-     (validateJoin_withOp _ C03.exA C03.exT C03.exL C03.exR "<" C03.ex_valid (edOp_valid _ (by decide))) C03.ex_tau,
-   C03.returns_frame _ _ _ _ C03.exL C03.exR 0 exValid0 rfl,
+     (validateJoin_withOp _ C03.exA C03.exT C03.exL C03.exR "<" C03.ex_valid (edOp_valid _ (by decide))) C03.ex_tau
+     (by decide +kernel),
+   C03.returns_frame _ _ _ _ C03.exL C03.exR 0 exValid0 rfl (by decide +kernel),
    C03.returns_frame _ _ _ _ C03.exR C03.exL 1 (validateJoin_swap _ C03.exA C03.exT C03.exL C03.exR C03.ex_valid)
-     C03.ex_tau⟩
+     C03.ex_tau (by decide +kernel)⟩
 end ExED
 
 section AxiomCheck
